@@ -276,6 +276,10 @@ func readLine(r *bufio.Reader) (string, error) {
 		if err != nil {
 			return "", err
 		}
+		// 限制行的最大长度，避免对端发送没有行结束符的数据耗尽内存
+		if len(line)+len(l) > maxLineLenght {
+			return "", fmt.Errorf("line over the maximum length of %d bytes", maxLineLenght)
+		}
 		// Avoid the copy if the first call produced a full line.
 		if line == nil && !more {
 			return string(l), nil
